@@ -16,7 +16,10 @@ use linux::ExecutableMemory;
 use self::windows::ExecutableMemory;
 
 pub const INITIAL_MEMORY_SIZE: usize = 0x800000;
-pub const MEMORY_MINIMUM_SIZE: usize = 0x1000;
+/// Free space required before a block is translated. A block never extends
+/// past its 16 KiB region, and no instruction translates to more than 160
+/// bytes of host code, so this is room for the longest possible block.
+pub const MEMORY_MINIMUM_SIZE: usize = 0x300000;
 pub const MEMORY_SIZE_INCREASE: usize = 0x1000;
 
 pub struct CodeCache {
@@ -26,6 +29,7 @@ pub struct CodeCache {
 
   prologue_location: usize,
   epilogue_location: usize,
+  first_block_location: usize,
 }
 
 impl CodeCache {
@@ -37,9 +41,11 @@ impl CodeCache {
 
       prologue_location: 0,
       epilogue_location: 0,
+      first_block_location: 0,
     };
     cache.write_prelude_block();
     cache.write_epilogue_block();
+    cache.first_block_location = cache.write_cursor;
 
     cache
   }
@@ -124,6 +130,12 @@ impl CodeCache {
   }
 
   pub fn translate_code_block(&mut self, code: &Box<[u8]>, ip: usize, mem: *const MemoryAreas) -> usize {
+    // The code area is not recycled piecemeal. When the next block might not
+    // fit, forget every translation and start filling the area again.
+    if self.exec_memory.get_memory_area().len() - self.write_cursor < MEMORY_MINIMUM_SIZE {
+      self.code_blocks.clear();
+      self.write_cursor = self.first_block_location;
+    }
     let mut write_cursor = self.write_cursor;
     let starting_offset = write_cursor;
 
@@ -195,11 +207,6 @@ impl CodeCache {
 
     let bytes_translated = index - ip;
     self.insert_code_block(ip, starting_offset, write_cursor - starting_offset, bytes_translated);
-
-    let space_remaining = available_length - write_cursor;
-    if space_remaining < MEMORY_MINIMUM_SIZE {
-      println!("Running out of space, only {} bytes left", space_remaining);
-    }
 
     starting_offset
   }
